@@ -192,7 +192,8 @@ RECURSIVE ConvList(_, _, _, _)
 ConvList(dt, vis, i, acc) ==
   IF i > Len(vis) THEN [e |-> NoErr, vs |-> acc]
   ELSE LET r == ConvOf(dt, vis[i].v)
-       IN  IF ~r.ok THEN [e |-> Err("conv", vis[i].line, vis[i].res, vis[i].v, "ValueError"), vs |-> acc]
+       IN  IF ~r.ok THEN [e |-> Err(IF r.v = "~fault~" THEN "fault" ELSE "conv",
+                                    vis[i].line, vis[i].res, vis[i].v, "ValueError"), vs |-> acc]
            ELSE ConvList(dt, vis, i + 1, Append(acc, r.v))
 
 RECURSIVE ConvMapL(_, _, _, _)
@@ -206,7 +207,8 @@ RECURSIVE ConvSecs(_, _, _, _)
 ConvSecs(vocab, svs, i, acc) ==
   IF i > Len(svs) THEN [e |-> NoErr, vs |-> acc]
   ELSE LET r == SecConvOf(vocab[svs[i].type].datatype, svs[i])
-       IN  IF ~r.ok THEN [e |-> Err("conv", -1, "", "~section~", "ValueError"), vs |-> acc]
+       IN  IF ~r.ok THEN [e |-> Err(IF vocab[svs[i].type].datatype = "boom" THEN "fault" ELSE "conv",
+                                    -1, "", "~section~", "ValueError"), vs |-> acc]
            ELSE ConvSecs(vocab, svs, i + 1, Append(acc, r.v))
 
 ConstructChild(vocab, c, v) ==
@@ -312,7 +314,10 @@ BagSplit(sects, tn, name, i, taken, kept) ==
 Frame(rid) == [rid |-> rid, n |-> 0, secs |-> <<>>]
 
 TopType(S, m) == IF Len(m.ms) = 1 THEN S.top ELSE m.vocab[m.ms[Len(m.ms)].tname]
-Fail(m, e)    == [m EXCEPT !.out = e]
+(* A failing load unwinds: every resource still open is closed, innermost  *)
+(* first (the `with` blocks of loadURL / includeConfiguration).            *)
+Fail(m, e)    == [m EXCEPT !.out = e,
+                           !.ev = @ \o [i \in 1..Len(m.ps) |-> <<"close", m.ps[Len(m.ps) + 1 - i].rid>>]]
 
 LoadStart(S, rid, specs) ==
   LET ps   == ParseSpecs(specs, 1, <<>>)
@@ -321,7 +326,8 @@ LoadStart(S, rid, specs) ==
                ms |-> <<NewMatcher(S.types, "", S.top, "", 0)>>,
                defs |-> <<>>, vocab |-> S.types, comps |-> S.comps, hl |-> <<>>,
                ev |-> <<<<"open", rid>>>>, out |-> [r |-> "run"]]
-  IN  IF ~ps.ok THEN Fail(base, Err("syntax", -1, "~option~", "", "invalid configuration specifier"))
+  IN  IF ~ps.ok    \* refused when it is added, before anything is opened
+      THEN [base EXCEPT !.out = Err("syntax", -1, "~option~", "", "invalid configuration specifier"), !.ev = <<>>]
       ELSE IF opts = <<>> THEN base
       ELSE LET b == CookBag(S.top.keytype, opts, 1, [on |-> TRUE, keys |-> <<>>, sects |-> <<>>])
            IN  IF IsErr(b.e) THEN Fail(base, b.e)
@@ -386,7 +392,7 @@ CloseTop(S, m, fixup) ==
       P   == m.ms[d - 1]
       fin == FinishMatcher(m, T, M)
       repair(e) ==
-        IF ~fixup THEN e
+        IF ~fixup \/ e.kind = "fault" THEN e      \* an exception of a datatype function passes through unchanged
         ELSE IF e.kind = "conv"
              THEN [e EXCEPT !.line = IF e.line < 0 THEN CurLine(m) ELSE e.line,
                             !.res  = IF e.res = "" THEN CurRes(m) ELSE e.res]
@@ -462,7 +468,8 @@ StepInclude(S, m, c) ==
   ELSE LET rid == Resolve(CurRes(m), x.v) IN
        IF rid = "" THEN Fail(m, Err("config", 0, "", "", "error opening"))
        ELSE IF \E i \in 1..Len(m.ps) : m.ps[i].rid = rid
-            THEN Fail(m, Err("config", 0, "", "", "recursive include"))   \* a resource that (transitively) includes itself
+            THEN Fail([m EXCEPT !.ps = Append(@, Frame(rid)), !.ev = Append(@, <<"open", rid>>)],
+                      Err("config", 0, "", "", "recursive include"))     \* a resource that (transitively) includes itself
        ELSE [m EXCEPT !.ps = Append(@, Frame(rid)), !.ev = Append(@, <<"open", rid>>)]
 
 StepImport(S, m, c) ==
@@ -480,7 +487,8 @@ StepImport(S, m, c) ==
                              ELSE IF m.vocab[n].abstract /\ n \in DOMAIN p.impl
                                   THEN [m.vocab[n] EXCEPT !.impl = @ \cup p.impl[n]]
                                   ELSE m.vocab[n]]
-            IN  [m EXCEPT !.vocab = merged, !.comps = @ \cup {x.v}]
+            IN  [m EXCEPT !.vocab = merged, !.comps = @ \cup {x.v},
+                          !.ev = @ \o <<<<"open", "pkg:" \o x.v>>, <<"close", "pkg:" \o x.v>>>>]
 
 (* One classified line of the current resource.                            *)
 StepClass(S, m0, c) ==
